@@ -1,13 +1,523 @@
 package main
 
-// Extension slot B: request lines (goExecExtB) and generators (registered with regExtra) of one model extension.
+// Extension slot B: the SENDER streams call by call over a faulting writer.
+//
+//   st.sender enc <ma> <sender> <recips> <eph> <src> <sink> <ops>
+//   st.sender sig <ma> <signer> <src> <sink> <ops>
+//   st.sender sc  <sender> <boxes> <syms> <eph> <src> <sink> <ops>
+//   st.sender det <ma> <signer> <src> <sink> <ops>
+//   st.sender <kind>.a <the same params> <brand> <sink> <ops>      armored composition
+//
+// goExecExtB drives the REAL NewEncryptStream / NewSignStream / NewSigncryptSealStream /
+// NewSignDetachedStream (and the armored constructors) over a writer whose k-th Write fails
+// as the sink script says, with crypto/rand.Reader scripted, and answers per call (n, error
+// class), the bytes at the writer after every call, the sizes of all attempted underlying
+// writes and what reached the writer.  Model: lean/Saltpack/Model/SenderStream.lean,
+// driver lean/Driver/ExtB.lean.
+
+import (
+	"bytes"
+	"crypto/sha512"
+	"fmt"
+	"io"
+	"strings"
+
+	"github.com/keybase/saltpack"
+	"verifharness/internal/keys"
+	"verifharness/internal/prng"
+	"verifharness/internal/script"
+)
 
 func goExecExtB(t []string) (string, bool) {
 	switch t[0] {
+	case "st.sender":
+		return execSender(t), true
 	}
 	return "", false
 }
 
+// recWriter: an io.Writer whose k-th Write fails (0, ErrIO) when sink[k]; records everything
+type recWriter struct {
+	sink   []bool
+	k      int
+	tried  []int
+	out    bytes.Buffer
+	faults int
+}
+
+func (w *recWriter) Write(p []byte) (int, error) {
+	fail := w.k < len(w.sink) && w.sink[w.k]
+	w.k++
+	w.tried = append(w.tried, len(p))
+	if fail {
+		w.faults++
+		return 0, script.ErrIO
+	}
+	w.out.Write(p)
+	return len(p), nil
+}
+
+func senderClass(err error) string {
+	if err == nil {
+		return "ok"
+	}
+	if strings.Contains(err.Error(), script.ErrIO.Error()) {
+		return "io-error"
+	}
+	return script.Class(err)
+}
+
+func genBytesB(off, n int) []byte {
+	b := make([]byte, n)
+	for j := range b {
+		i := off + j
+		b[j] = byte(i ^ (i >> 8) ^ (i>>16)*7)
+	}
+	return b
+}
+
+func showOutB(b []byte) string {
+	if len(b) <= 2048 {
+		return keys.Hex(b)
+	}
+	h := sha512.Sum512(b)
+	return fmt.Sprintf("#%d:%s", len(b), keys.Hex(h[:]))
+}
+
+func dotsB(l []int) string {
+	if len(l) == 0 {
+		return "-"
+	}
+	s := make([]string, len(l))
+	for i, n := range l {
+		s[i] = fmt.Sprint(n)
+	}
+	return strings.Join(s, ".")
+}
+
+func parseSinkB(s string) []bool {
+	if s == "-" {
+		return nil
+	}
+	out := make([]bool, len(s))
+	for i, c := range s {
+		out[i] = c == '1'
+	}
+	return out
+}
+
+// senderCtor: the constructor of the request's stream kind and its randomness script
+func senderCtor(t []string) (mk func(w io.Writer) (io.WriteCloser, error), src *script.Source, rest []string) {
+	kind := t[1]
+	armored := strings.HasSuffix(kind, ".a")
+	kind = strings.TrimSuffix(kind, ".a")
+	brand := ""
+	switch kind {
+	case "enc": // ma sender recips eph src
+		v := version(t[2], "0")
+		src = parseSource(t[6])
+		c := parseEph(t[5], src)
+		var sender saltpack.BoxSecretKey
+		if t[3] != "anon" {
+			sender = keys.NewBoxSecret(unhex(t[3]), false, nil, c)
+		}
+		rs := parseRecips(t[4], c)
+		rest = t[7:]
+		if armored {
+			brand, rest = string(unhex(rest[0])), rest[1:]
+			mk = func(w io.Writer) (io.WriteCloser, error) { return saltpack.NewEncryptArmor62Stream(v, w, sender, rs, brand) }
+		} else {
+			mk = func(w io.Writer) (io.WriteCloser, error) { return saltpack.NewEncryptStream(v, w, sender, rs) }
+		}
+	case "sig", "det": // ma signer src
+		v := version(t[2], "0")
+		signer := keys.NewSigSecret(unhex(t[3]), nil)
+		src = parseSource(t[4])
+		rest = t[5:]
+		if armored {
+			brand, rest = string(unhex(rest[0])), rest[1:]
+		}
+		switch {
+		case kind == "sig" && !armored:
+			mk = func(w io.Writer) (io.WriteCloser, error) { return saltpack.NewSignStream(v, w, signer) }
+		case kind == "sig":
+			mk = func(w io.Writer) (io.WriteCloser, error) { return saltpack.NewSignArmor62Stream(v, w, signer, brand) }
+		case !armored:
+			mk = func(w io.Writer) (io.WriteCloser, error) { return saltpack.NewSignDetachedStream(v, w, signer) }
+		default:
+			mk = func(w io.Writer) (io.WriteCloser, error) { return saltpack.NewSignDetachedArmor62Stream(v, w, signer, brand) }
+		}
+	case "sc": // sender boxes syms eph src
+		src = parseSource(t[6])
+		c := parseEph(t[5], src)
+		var sender saltpack.SigningSecretKey
+		if t[2] != "anon" {
+			sender = keys.NewSigSecret(unhex(t[2]), nil)
+		}
+		boxes, _ := parseSRecips(t[3], c)
+		_, syms := parseSRecips(t[4], c)
+		rest = t[7:]
+		if armored {
+			brand, rest = string(unhex(rest[0])), rest[1:]
+			mk = func(w io.Writer) (io.WriteCloser, error) {
+				return saltpack.NewSigncryptArmor62SealStream(w, c, sender, boxes, syms, brand)
+			}
+		} else {
+			mk = func(w io.Writer) (io.WriteCloser, error) { return saltpack.NewSigncryptSealStream(w, c, sender, boxes, syms) }
+		}
+	default:
+		panic("st.sender kind " + kind)
+	}
+	return
+}
+
+func execSender(t []string) string {
+	mk, src, rest := senderCtor(t)
+	w := &recWriter{sink: parseSinkB(rest[0])}
+	var s io.WriteCloser
+	var err error
+	var calls []string
+	lens := []int{}
+	script.With(src, func() {
+		s, err = mk(w)
+		lens = append(lens, w.out.Len())
+		if err != nil {
+			return
+		}
+		for _, op := range splitL(rest[1]) {
+			p := strings.Split(op, ":")
+			func() {
+				defer func() {
+					if x := recover(); x != nil {
+						if p[0] == "c" {
+							calls = append(calls, "c:panic")
+						} else {
+							calls = append(calls, "0:panic")
+						}
+					}
+				}()
+				switch p[0] {
+				case "c":
+					e := s.Close()
+					calls = append(calls, "c:"+senderClass(e))
+				case "w":
+					n, e := s.Write(unhex(p[1]))
+					calls = append(calls, fmt.Sprintf("%d:%s", n, senderClass(e)))
+				case "g":
+					n, e := s.Write(genBytesB(atoi(p[1]), atoi(p[2])))
+					calls = append(calls, fmt.Sprintf("%d:%s", n, senderClass(e)))
+				}
+			}()
+			lens = append(lens, w.out.Len())
+		}
+	})
+	initS := "ok"
+	if err != nil {
+		if w.k == 0 {
+			return "err " + script.Class(err)
+		}
+		initS = senderClass(err)
+	}
+	cl := "-"
+	if len(calls) > 0 {
+		cl = strings.Join(calls, ",")
+	}
+	return fmt.Sprintf("ok init=%s calls=%s lens=%s tried=%s out=%s", initS, cl, dotsB(lens), dotsB(w.tried), showOutB(w.out.Bytes()))
+}
+
+// ---------------------------------------------------------------------------
+// generators
+
+type senderCfg struct {
+	name   string // histogram key
+	prefix string // "st.sender <kind> <params…>" without sink and ops
+}
+
+func senderConfigs(r *prng.R, armored bool) []senderCfg {
+	var out []senderCfg
+	sfx, brand := "", ""
+	if armored {
+		sfx = ".a"
+		brand = " " + prng.Pick(r, "-", keys.Hex([]byte("KEYBASE")), keys.Hex([]byte("x")))
+	}
+	for _, ma := range []int{1, 2} {
+		// encryption: 1–3 recipients, named or anonymous sender
+		n := prng.Pick(r, 1, 1, 2, 3)
+		var rs []string
+		for i := 0; i < n; i++ {
+			rs = append(rs, keys.Hex(boxPub(r.Bytes(32)))+":"+prng.Pick(r, "v", "v", "h"))
+		}
+		snd := "anon"
+		if r.Bool() {
+			snd = keys.Hex(r.Bytes(32))
+		}
+		ephRand := r.Bool()
+		eph := "r"
+		if !ephRand {
+			eph = "g:" + keys.Hex(r.Bytes(32))
+		}
+		out = append(out, senderCfg{fmt.Sprintf("enc%s.v%d", sfx, ma),
+			fmt.Sprintf("st.sender enc%s %d %s %s %s %s%s", sfx, ma, snd, strings.Join(rs, ","), eph, randScript(r, n, ephRand, -1, 0).Spec(), brand)})
+		out = append(out, senderCfg{fmt.Sprintf("sig%s.v%d", sfx, ma),
+			fmt.Sprintf("st.sender sig%s %d %s %s%s", sfx, ma, keys.Hex(r.Bytes(32)), randSigScript(r, -1, 0).Spec(), brand)})
+		out = append(out, senderCfg{fmt.Sprintf("det%s.v%d", sfx, ma),
+			fmt.Sprintf("st.sender det%s %d %s %s%s", sfx, ma, keys.Hex(r.Bytes(32)), randSigScript(r, -1, 0).Spec(), brand)})
+	}
+	{
+		kinds := prng.Pick(r, "b", "s", "bs", "bb")
+		var boxes, syms []string
+		for _, ch := range kinds {
+			if ch == 'b' {
+				boxes = append(boxes, "b:"+keys.Hex(boxPub(r.Bytes(32))))
+			} else {
+				syms = append(syms, "s:"+keys.Hex(r.Bytes(32))+":"+keys.Hex(r.Bytes(32)))
+			}
+		}
+		jl := func(l []string) string {
+			if len(l) == 0 {
+				return "-"
+			}
+			return strings.Join(l, ",")
+		}
+		snd := keys.Hex(r.Bytes(32))
+		if r.Intn(3) == 0 {
+			snd = "anon"
+		}
+		ephRand := r.Bool()
+		eph := "r"
+		if !ephRand {
+			eph = "g:" + keys.Hex(r.Bytes(32))
+		}
+		out = append(out, senderCfg{"sc" + sfx,
+			fmt.Sprintf("st.sender sc%s %s %s %s %s %s%s", sfx, snd, jl(boxes), jl(syms), eph, randScript(r, len(kinds), ephRand, -1, 0).Spec(), brand)})
+	}
+	return out
+}
+
+// small op lists: writes then Close, with the irregular usages the code defines
+// (empty writes, no write at all, a second Close, a Write after Close)
+func smallOps(r *prng.R, variant int) string {
+	w := func(n int) string { return "w:" + keys.Hex(r.Bytes(n)) }
+	switch variant % 6 {
+	case 0:
+		return w(5) + "," + w(40) + ",c"
+	case 1:
+		return "c"
+	case 2:
+		return "w:-," + w(1) + ",w:-,c"
+	case 3:
+		return w(300) + ",c,c"
+	case 4:
+		return w(17) + ",c," + w(3) + ",c"
+	default:
+		return w(r.Intn(600)) + "," + w(r.Intn(50)) + "," + w(r.Intn(5)) + ",c"
+	}
+}
+
+func senderField(ans, key string) string {
+	for _, f := range strings.Fields(ans) {
+		if strings.HasPrefix(f, key+"=") {
+			return f[len(key)+1:]
+		}
+	}
+	return ""
+}
+
+func sinkString(k int, sticky bool, total int) string {
+	s := strings.Repeat("0", k) + "1"
+	if sticky {
+		s += strings.Repeat("1", total-k+8)
+	}
+	return s
+}
+
+// the property's own predicate on an implementation answer: a failing underlying write is
+// reported by the constructor, a Write or the Close; a run in which every call reported
+// success delivered exactly the fault-free bytes; on failure (regular usage: writes, then one
+// Close) what reached the writer is a prefix of the fault-free output
+func senderPredicate(line, ans, base string, regular bool) string {
+	if !strings.HasPrefix(ans, "ok ") {
+		return ""
+	}
+	anyErr := senderField(ans, "init") != "ok"
+	for _, c := range splitL(senderField(ans, "calls")) {
+		if !strings.HasSuffix(c, ":ok") {
+			anyErr = true
+		}
+	}
+	f := strings.Fields(line)
+	sink := f[len(f)-2]
+	nTried := 0
+	if tr := senderField(ans, "tried"); tr != "-" && tr != "" {
+		nTried = len(strings.Split(tr, "."))
+	}
+	idx := strings.Index(sink, "1")
+	faulted := idx >= 0 && idx < nTried
+	out, bout := senderField(ans, "out"), senderField(base, "out")
+	if faulted && !anyErr {
+		return fmt.Sprintf("an underlying Write failed but the constructor, every Write and Close reported success: %s -> %s", trunc(line, 600), trunc(ans, 300))
+	}
+	if !anyErr && out != bout {
+		return fmt.Sprintf("every call reported success but the bytes at the writer differ from the fault-free run: %s -> %s", trunc(line, 600), trunc(ans, 300))
+	}
+	if regular && !strings.HasPrefix(out, "#") && !strings.HasPrefix(bout, "#") && !strings.HasPrefix(strings.TrimPrefix(bout, "-"), strings.TrimPrefix(out, "-")) {
+		return fmt.Sprintf("after a fault the bytes at the writer are not a prefix of the fault-free output: %s -> %s", trunc(line, 600), trunc(ans, 300))
+	}
+	return ""
+}
+
+func genSenderFaults(armored bool) func(ctx *Ctx, emit func(Case)) {
+	return func(ctx *Ctx, emit func(Case)) {
+		r := ctx.R.Fork()
+		rounds := ctx.N(1, 6)
+		for round := 0; round < rounds; round++ {
+			for ci, cfg := range senderConfigs(r, armored) {
+				ops := smallOps(r, ci+round)
+				if armored && (ci+round)%7 == 3 {
+					// more than one armor line (200 words of 15 characters): a line break inside one armor Write
+					ops = "w:" + keys.Hex(r.Bytes(2300)) + ",w:" + keys.Hex(r.Bytes(40)) + ",c"
+				}
+				regular := strings.Count(ops, "c") == 1
+				baseLine := cfg.prefix + " - " + ops
+				base := goExec(baseLine)
+				emit(Case{Stream: "sender.fault." + cfg.name, Line: baseLine, GoOut: base, Branch: "nofault"})
+				total := len(strings.Split(senderField(base, "tried"), "."))
+				step := 1
+				if lim := ctx.N(40, 400); armored && total > lim {
+					step = total/lim + 1
+				}
+				for k := 0; k < total; k += step {
+					for _, sticky := range []bool{false, true} {
+						if armored && ctx.Quick && sticky != (k%2 == 0) {
+							continue
+						}
+						line := cfg.prefix + " " + sinkString(k, sticky, total) + " " + ops
+						out := goExec(line)
+						base := base
+						emit(Case{Stream: "sender.fault." + cfg.name, Line: line, GoOut: out,
+							Branch:  fmt.Sprintf("sticky=%v/init=%s/%s", sticky, senderField(out, "init"), callShape(senderField(out, "calls"))),
+							Direct:  func() string { return senderPredicate(line, out, base, regular) },
+							Sample:  map[string]interface{}{"stream": cfg.name, "underlying_writes": total, "fault_at": k, "sticky": sticky, "calls": senderField(out, "calls")},
+						})
+					}
+				}
+			}
+		}
+		if armored {
+			return
+		}
+		// blocks of 1 MiB: a Write that emits one or two blocks, the held-back full block, Close after
+		// a failed multi-block Write
+		big := []string{
+			fmt.Sprintf("g:0:%d,c", mib+1),
+			fmt.Sprintf("g:0:%d,g:%d:5,c", mib, mib),
+			fmt.Sprintf("g:0:%d,c", 2*mib+1),
+			fmt.Sprintf("g:0:700000,g:700000:700000,c"),
+		}
+		cfgs := senderConfigs(r, false)
+		nbig := 0
+		for ci, cfg := range cfgs {
+			if strings.HasPrefix(cfg.name, "det") {
+				continue
+			}
+			for bi, ops := range big {
+				if ctx.Quick && (ci+bi)%4 != 0 {
+					continue
+				}
+				baseLine := cfg.prefix + " - " + ops
+				base := goExec(baseLine)
+				emit(Case{Stream: "sender.fault.big." + cfg.name, Line: baseLine, GoOut: base, Branch: "nofault"})
+				total := len(strings.Split(senderField(base, "tried"), "."))
+				ks := []int{3 + r.Intn(3), total - 1 - r.Intn(3)}
+				if !ctx.Quick {
+					ks = nil
+					for k := r.Intn(4); k < total; k += 4 {
+						ks = append(ks, k)
+					}
+				}
+				for _, k := range ks {
+					line := cfg.prefix + " " + sinkString(k, r.Bool(), total) + " " + ops
+					out := goExec(line)
+					emit(Case{Stream: "sender.fault.big." + cfg.name, Line: line, GoOut: out,
+						Branch: fmt.Sprintf("ops%d/%s", bi, callShape(senderField(out, "calls"))),
+						Direct: func() string { return senderPredicate(line, out, base, true) }})
+					nbig++
+				}
+			}
+		}
+	}
+}
+
+// callShape: the outcome classes of the calls without the byte counts
+func callShape(calls string) string {
+	var s []string
+	for _, c := range splitL(calls) {
+		p := strings.SplitN(c, ":", 2)
+		if p[0] == "c" {
+			s = append(s, "c"+p[1])
+		} else {
+			s = append(s, p[1])
+		}
+	}
+	return strings.Join(s, ".")
+}
+
+// C13: byte-level write-split independence of the whole stream (header included): the same
+// plaintext under different splits over Write calls, no faults; the bytes at the writer must be
+// those of the all-at-once form
+func genSenderSplits(ctx *Ctx, emit func(Case)) {
+	r := ctx.R.Fork()
+	for round := 0; round < ctx.N(2, 12); round++ {
+		for _, armored := range []bool{false, true} {
+			for _, cfg := range senderConfigs(r, armored) {
+				pt := r.Bytes(prng.Pick(r, 0, 1, 31, 64, 300, 1000))
+				var want string
+				for si := 0; si < 3; si++ {
+					var ops []string
+					switch si {
+					case 0:
+						ops = append(ops, "w:"+keys.Hex(pt))
+					case 1:
+						for _, b := range pt {
+							ops = append(ops, "w:"+keys.Hex([]byte{b}))
+							if len(ops) > 40 {
+								break
+							}
+						}
+						if len(pt) > len(ops) {
+							ops = append(ops, "w:"+keys.Hex(pt[len(ops):]))
+						}
+					default:
+						rest := pt
+						for len(rest) > 0 {
+							n := r.Intn(len(rest) + 1)
+							ops = append(ops, "w:"+keys.Hex(rest[:n]))
+							rest = rest[n:]
+						}
+						ops = append(ops, "w:-")
+					}
+					ops = append(ops, "c")
+					line := cfg.prefix + " - " + strings.Join(ops, ",")
+					out := goExec(line)
+					if si == 0 {
+						want = senderField(out, "out")
+					}
+					want := want
+					emit(Case{Stream: "sender.split." + cfg.name, Line: line, GoOut: out, Branch: fmt.Sprintf("split%d/len=%s", si, sizeClass(len(pt))),
+						Direct: func() string {
+							if senderField(out, "out") != want {
+								return fmt.Sprintf("the bytes a sender stream wrote depend on how the plaintext was split over Write calls: %s -> %s, one Write: %s", trunc(line, 600), trunc(out, 200), trunc(want, 100))
+							}
+							return ""
+						}})
+				}
+			}
+		}
+	}
+}
+
 func init() {
-	// regExtra("Cnn", func(ctx *Ctx, emit func(Case)) { … })
+	regExtra("C14", genSenderFaults(false))
+	regExtra("C14", genSenderFaults(true))
+	regExtra("C13", genSenderSplits)
 }
